@@ -13,6 +13,12 @@ CHECKS = {
             "line-table growth points; oracle = byte equality with the original (round trip) and with the "
             "concatenation model for ranges, exact length (truncation).",
             "Trusts the pipe-driven 'vi -s -e' to behave like typed ex commands; sampled, not exhaustive.", "3/C01"),
+    "C05": ("exploration", "grammar-based fuzzing of ex/vi command streams under ASan/UBSan (Hypothesis, sharded)",
+            "Grammar-generated ex scripts and vi key streams (full command tables, hostile addresses/patterns, 512-byte "
+            "limit, options, window sizes from 2x2) over valid UTF-8 buffers run against an ASan+UBSan build; oracle = "
+            "clean exit, no sanitizer report, quit trailer reached within a 10 s (re-run 60 s) CPU limit.",
+            "Sampled, not exhaustive; only the listed sanitizer classes count; streams without a reachable quit and "
+            "self-executing registers are outside the domain.", "3/C05"),
 }
 
 ALL = ["C%02d" % i for i in range(1, 21)]
